@@ -15,3 +15,10 @@ def register(prop, TB_COMMON):
              "C12: a Rust slice holds at most isize::MAX bytes (hypothesis bs.length < 2^63 of the theorems)",
          ],
          explanation="a: real TAsyncBinaryProtocol / binary_le / TAsyncCompactProtocol over a scripted AsyncRead (chunks + injected Pending) polled by a hand-written executor; dynamic reading interpreter over TAsyncInputProtocol, async skipper in and out of struct context, message envelopes; the answer (values, bytes pulled, failing step) is compared with the Lean stream semantics, and the oracle compares it with the in-memory protocol on the flattened bytes.")
+    prop("C03", lean_props=["C03", "Tables"],
+         trusted_base=TB_COMMON + [
+             "C03: the Apache documents are not in the sandbox; Thrift/Spec.lean is written from the spec facts listed in DESIGN.md section 8/C03 (to be reviewed against thrift-binary-protocol.md / thrift-compact-protocol.md; in particular 'bools inside compact containers are one byte 1/2')",
+             "C03: Base/Varint.lean's arithmetic definitions of LEB128 and zig-zag are shared between the reference and the model (their inverses are proved in Lemmas/Varint.lean)",
+             "C03: the Rust reference encoder with choice bits in harness/rt/src/thrift3.rs (every encoding it produces is re-checked for membership in the Lean relation by the driver on the same request)",
+         ],
+         explanation="se: pilota's bytes vs the reference's canonical encoding (and, by the oracle, vs an independent Rust reference encoder); sr: alternative legal encodings (long/short field headers, delta 15, non-zero bool bytes, bool nibble 1/2) drawn by the Rust reference encoder, checked for membership in SpecBin/SpecCmp.Enc and decoded by the reference decoder in Lean, fed to the REAL readers; s: every type byte in every header position, message headers byte by byte; sm / ax / axw: envelopes and TApplicationException both ways.")
